@@ -104,6 +104,23 @@ func setResponseHeaderValue'''),
 	}
 	return state, nil
 }'''),
+ 'group-no-before-hook': ('tester/tester.go', '''			if hook, ok := d.Befores[strings.ToLower("before_"+s.String())]; ok {''', '''			if hook, ok := d.Befores[strings.ToLower("before_"+s.String())]; ok && len(cases) == 0 {'''),
+ 'group-fresh-per-test': ('tester/tester.go', '''	for _, sub := range d.Subroutines {
+		metadata := getTestMetadata(sub)
+		for _, s := range metadata.Scopes {''', '''	for _, sub := range d.Subroutines {
+		metadata := getTestMetadata(sub)
+		i = t.setupInterpreter(defs)
+		if err := i.TestProcessInit(mockRequest); err != nil {
+			return cases, errors.WithStack(err)
+		}
+		for _, s := range metadata.Scopes {'''),
+ 'cache-global': ('interpreter/cache/cache.go', '''func New() *Cache {
+	return &Cache{}
+}''', '''var shared = &Cache{}
+
+func New() *Cache {
+	return shared
+}'''),
  # harmless refactorings
  'harmless-reorder': ('interpreter/subroutine.go', '''	regex := i.ctx.RegexMatchedValues
 	local := i.localVars
